@@ -136,3 +136,32 @@ package sourcewalk
 //@   assert at VisitTopicFile#0 all: arg0 != nil && len(arg0.topics) == len(ent.Schema.Summaries)
 //@   loop 0 invariant len(topics) == $iter && ent.Schema == old(ent.Schema) && ent.Schema.Summaries == old(ent.Schema.Summaries)
 //@   loop 0 invariant forall i int {ent.Schema.Summaries[i]} :: 0 <= i && i < len(ent.Schema.Summaries) ==> ent.Schema.Summaries[i] != nil
+
+// ---- service methods (C02, C13): request and response messages are named from the method alone ------
+// <Method>Request always; <Method>Response whenever a response block is declared (empty or not), the raw
+// google.api.HttpBody only when there is none. Nothing here depends on how many fields the blocks have,
+// so appending a field cannot change an existing method.
+// (assumed frame of the service file visitor: it keeps state of its own and does not write the source
+// definition or the nodes it is handed; its implementations are the converter and the summary walker)
+//@ func (ServiceFileVisitor).VisitObject
+//@   opt assumed frame: the visitor writes only its own state
+//@   modifies ghost:visitorState
+//@ func (ServiceFileVisitor).VisitService
+//@   opt assumed frame: the visitor writes only its own state
+//@   modifies ghost:visitorState
+//@ spec func outName(m *sourcedef_j5pb.APIMethod) string = m.Response == nil ? "google.api.HttpBody" : m.Name + "Response"
+//@ func (*serviceBuilder).accept
+//@   requires sn != nil && sn.schema != nil && visitor != nil
+//@   requires forall i int {sn.schema.Methods[i]} :: 0 <= i && i < len(sn.schema.Methods) ==> len(sn.schema.Methods[i].Request.Properties) < 2147483646 && (sn.schema.Methods[i].Response != nil ==> len(sn.schema.Methods[i].Response.Properties) < 2147483646)
+//@   requires forall i int {sn.schema.Methods[i]} :: 0 <= i && i < len(sn.schema.Methods) ==> sn.schema.Methods[i] != nil && sn.schema.Methods[i].Request != nil
+//@   assert at VisitService#0 methods: arg0 != nil && len(arg0.Methods) == len(sn.schema.Methods)
+//@   |   && (forall j int {arg0.Methods[j]} :: 0 <= j && j < len(arg0.Methods) ==> arg0.Methods[j] != nil && arg0.Methods[j].Schema == sn.schema.Methods[j]
+//@   |   && arg0.Methods[j].InputType == sn.schema.Methods[j].Name + "Request" && arg0.Methods[j].OutputType == outName(sn.schema.Methods[j]))
+//@   assert at newObjectSchemaNode#0 request: arg2 != nil && arg2.Name == method.Name + "Request" && arg2.Properties == method.Request.Properties
+//@   assert at newObjectSchemaNode#1 response: arg2 != nil && arg2.Name == method.Name + "Response" && arg2.Properties == method.Response.Properties
+//@   loop 0 invariant len(methods) == $iter && sn.schema == old(sn.schema) && sn.schema.Methods == old(sn.schema.Methods)
+//@   loop 0 invariant forall j int {methods[j]} :: 0 <= j && j < $iter ==> methods[j] != nil && methods[j].Schema == sn.schema.Methods[j]
+//@   |   && methods[j].InputType == sn.schema.Methods[j].Name + "Request" && methods[j].OutputType == outName(sn.schema.Methods[j])
+//@   loop 0 invariant forall i int {sn.schema.Methods[i]} :: 0 <= i && i < len(sn.schema.Methods) ==> sn.schema.Methods[i] != nil && sn.schema.Methods[i].Request != nil
+//@   |   && sn.schema.Methods[i].Name == old(sn.schema.Methods[i].Name) && sn.schema.Methods[i].Response == old(sn.schema.Methods[i].Response)
+//@   |   && len(sn.schema.Methods[i].Request.Properties) < 2147483646 && (sn.schema.Methods[i].Response != nil ==> len(sn.schema.Methods[i].Response.Properties) < 2147483646)
